@@ -12,7 +12,7 @@ tvars == <<vars, l>>
 E == Trace[l]
 IsEvent(e) == l <= Len(Trace) /\ Trace[l].ev = e /\ l' = l + 1
 
-TInit == InitWith(1, <<>>) /\ l = 1
+TInit == InitWith(1, <<>>, 0) /\ l = 1
 
 \* a new child process: its number of instances and the signals it will be sent
 TScript == /\ IsEvent("script")
@@ -21,10 +21,15 @@ TScript == /\ IsEvent("script")
            /\ once' = "idle" /\ runner' = "-" /\ ci' = 1 /\ ck' = 1
            /\ ran' = [i \in Insts |-> [kd \in Kind |-> 0]]
            /\ stopped' = {} /\ si' = 1 /\ exited' = "no"
+           /\ stopper' = E.stopper /\ spc' = "none" /\ list' = [i \in 1..E.n |-> i]
 
-TCb == /\ IsEvent("cb") /\ ci = E.g /\ KindAt(ck) = E.kind
+TCb == /\ IsEvent("cb") /\ ci <= Len(list) /\ list[ci] = E.g /\ KindAt(ck) = E.kind
        /\ (RunCb("p") \/ RunCb("j"))
-TStop == IsEvent("stop") /\ ppc = "stop" /\ si <= n /\ si = E.g /\ PStop
+\* a server's Stop() was entered: casket.Stop working on the head of the list, or the goroutine
+\* the scripted callback spawned
+TStop == /\ IsEvent("stop")
+         /\ \/ ppc = "stop" /\ list # <<>> /\ Head(list) = E.g /\ PStop
+            \/ stopper = E.g /\ StopperServers
 TExit == /\ IsEvent("exit")
          /\ \/ PTake /\ exited' = "quit" /\ E.code = 0
             \/ PStop /\ exited' = "term" /\ E.code = 0
@@ -36,6 +41,7 @@ Silent == /\ UNCHANGED l
              \/ PTake /\ exited' = "no"
              \/ POnce \/ JOnce \/ LeaveOnce("p") \/ LeaveOnce("j")
              \/ ITake /\ exited' = "no"
+             \/ StopperSplice
 
 TNext == TScript \/ TCb \/ TStop \/ TExit \/ Silent
 TSpec == TInit /\ [][TNext]_tvars
